@@ -13,6 +13,11 @@
 //! instead of with whatever the system allocator left there. (Not under Miri, which reports such a
 //! read itself.)
 //!
+//! Alignment: a block is aligned exactly as its layout asks and no better - requests with an
+//! alignment of 8 or less are served 8 bytes into a 16-aligned system block, so their addresses are
+//! 8 modulo 16 (glibc would hand out 16-aligned blocks for them, which hides code that quietly
+//! relies on low address bits being clear). Not under Miri, whose allocator is already minimal.
+//!
 //! Correct Rust never reads freed or unwritten memory, so no mode can change the behaviour of a tree on which the
 //! properties hold. The wrapper also keeps per-thread counters of live blocks/bytes: a ledger that
 //! does not depend on the interpreter's hooks at all.
@@ -110,6 +115,18 @@ fn count(blocks: i64, bytes: i64) {
     let _ = LIVE_BYTES.try_with(|c| c.set(c.get() + bytes));
 }
 
+/// The system block behind a user block: (layout to ask the system allocator for, offset of the user
+/// block inside it). Depends on the layout only, so `dealloc` and `realloc` can recompute it.
+#[inline]
+fn sys_layout(layout: Layout) -> (Layout, usize) {
+    if !cfg!(miri) && layout.align() <= 8 {
+        // 8 bytes into a 16-aligned block
+        (unsafe { Layout::from_size_align_unchecked(layout.size() + 8, 16) }, 8)
+    } else {
+        (layout, 0)
+    }
+}
+
 unsafe fn park(ptr: *mut u8, layout: Layout) {
     std::ptr::write_bytes(ptr, 0xDE, layout.size());
     let _ = POISONED.try_with(|c| c.set(c.get() + 1));
@@ -166,45 +183,56 @@ pub fn flush_parked() {
 
 unsafe impl GlobalAlloc for SimAlloc {
     unsafe fn alloc(&self, layout: Layout) -> *mut u8 {
-        let p = System.alloc(layout);
-        if !p.is_null() {
-            count(1, layout.size() as i64);
-            fill(p, layout.size());
+        let (sl, off) = sys_layout(layout);
+        let base = System.alloc(sl);
+        if base.is_null() {
+            return base;
         }
+        let p = base.add(off);
+        count(1, layout.size() as i64);
+        fill(p, layout.size());
         p
     }
 
     unsafe fn dealloc(&self, ptr: *mut u8, layout: Layout) {
         count(-1, -(layout.size() as i64));
+        let (sl, off) = sys_layout(layout);
+        let base = ptr.sub(off);
         if mode() == PLAIN {
-            System.dealloc(ptr, layout)
+            System.dealloc(base, sl)
         } else {
-            park(ptr, layout)
+            park(base, sl)
         }
     }
 
     unsafe fn realloc(&self, ptr: *mut u8, layout: Layout, new_size: usize) -> *mut u8 {
+        let (sl, off) = sys_layout(layout);
+        let base = ptr.sub(off);
         if mode() == MOVE {
             let new_layout = Layout::from_size_align_unchecked(new_size, layout.align());
-            let new_ptr = System.alloc(new_layout);
-            if new_ptr.is_null() {
-                return new_ptr;
+            let (nsl, noff) = sys_layout(new_layout);
+            let new_base = System.alloc(nsl);
+            if new_base.is_null() {
+                return new_base;
             }
+            let new_ptr = new_base.add(noff);
             std::ptr::copy_nonoverlapping(ptr, new_ptr, layout.size().min(new_size));
             if new_size > layout.size() {
                 fill(new_ptr.add(layout.size()), new_size - layout.size());
             }
-            park(ptr, layout);
+            park(base, sl);
             let _ = MOVES.try_with(|c| c.set(c.get() + 1));
             count(0, new_size as i64 - layout.size() as i64);
             new_ptr
         } else {
-            let p = System.realloc(ptr, layout, new_size);
-            if !p.is_null() {
-                count(0, new_size as i64 - layout.size() as i64);
-                if new_size > layout.size() {
-                    fill(p.add(layout.size()), new_size - layout.size());
-                }
+            let new_base = System.realloc(base, sl, new_size + off);
+            if new_base.is_null() {
+                return new_base;
+            }
+            let p = new_base.add(off);
+            count(0, new_size as i64 - layout.size() as i64);
+            if new_size > layout.size() {
+                fill(p.add(layout.size()), new_size - layout.size());
             }
             p
         }
